@@ -259,7 +259,7 @@ class Leg(object):
                  quick=200, thorough=5000, shards_quick=1, shards_thorough=16,
                  rule="", nt_floor=0.0, exhaustive=False, tiers=("quick",
                                                                  "thorough"),
-                 optimize=False):
+                 optimize=False, env=None):
         self.name = name
         self.run = run
         self.gen = gen            # callable(tier) -> hypothesis strategy
@@ -274,6 +274,26 @@ class Leg(object):
         # optimize: the shard subprocess (and a replay) runs under
         # "python -O", i.e. with every assert statement of nfcpy compiled out
         self.optimize = optimize
+        # env: environment overrides for the shard subprocess / a replay
+        # (e.g. another PYTHONHASHSEED: iteration orders of sets and dicts of
+        # str / bytes keys differ between interpreter runs of a real program)
+        self.env = dict(env or {})
+
+
+def twin_env(leg, suffix, env, quick=None, thorough=None, shards_quick=None,
+             shards_thorough=None, note=""):
+    """the same search as `leg` in a subprocess with environment overrides"""
+    return Leg(leg.name + "-" + suffix, run=leg.run, gen=leg.gen,
+               enum=leg.enum, bulk=leg.bulk,
+               quick=quick if quick is not None else leg.n["quick"],
+               thorough=thorough if thorough is not None else leg.n["thorough"],
+               shards_quick=shards_quick or leg.shards["quick"],
+               shards_thorough=shards_thorough or leg.shards["thorough"],
+               rule="as leg %s, in an interpreter started with %s%s." % (
+                   leg.name, " ".join("%s=%s" % kv for kv in sorted(
+                       env.items())), note),
+               nt_floor=leg.nt_floor, exhaustive=leg.exhaustive,
+               tiers=leg.tiers, optimize=leg.optimize, env=env)
 
 
 def twin_O(leg, quick=None, thorough=None, shards_quick=None,
